@@ -46,7 +46,7 @@ TIMEOUT_CASE = 600
 
 def plan(tier, seed):
     n = 96 if tier == "quick" else 2400
-    kinds = ["volume", "volume", "quad-active", "quad-active", "quad-interior", "quad-inactive", "scale-mix"]
+    kinds = ["volume", "volume", "quad-active", "quad-active", "quad-interior", "quad-inactive", "scale-mix", "feasibility"]
     return [{"kind": kinds[i % len(kinds)], "i": i} for i in range(n)]
 
 
@@ -109,6 +109,19 @@ def make_problem(kind, rng):
             xs = np.clip(np.sqrt(c / lam), lo, hi)
             a, b = (lam, b) if xs.sum() > vmax else (a, lam)
         P.update(lo=lo, hi=hi, funs=[fobj, g1], xopt=xs, x0=np.clip(np.full(n, V) * hi, lo, hi), cls="A", scale_obj=use_scaling)
+        return P
+    if kind == "feasibility":
+        # a pure feasibility problem: constant objective (zero gradient, bit-identical value in every iteration), started infeasible;
+        # the run has to keep going until the constraints are satisfied
+        lo, hi = np.zeros(n), np.ones(n)
+        funs = [lambda x: (1.0, np.zeros(n))]
+        xf = rng.uniform(0.55, 0.9, n)
+        for _ in range(int(rng.integers(1, 3))):
+            a = np.abs(rng.standard_normal(n)) + 0.1
+            a = a / np.linalg.norm(a)
+            bb = float(a @ xf + rng.uniform(0.02, 0.1))           # x >= ... : feasible around xf, infeasible near the origin
+            funs.append(lambda x, a=a, bb=bb: (float(bb - 0.25 - a @ x), -a.copy()))
+        P.update(lo=lo, hi=hi, funs=funs, xopt=np.clip(xf + 0.2, 0, 1), x0=np.full(n, 0.05), cls="F", scale_obj=False, fixed_bounds=True)
         return P
     if kind == "scale-mix":
         # two signals of very different physical scale: lengths in [0, 10^k] with a linear objective (they run into their bounds
@@ -303,6 +316,17 @@ def run_case(case, ctx):
     version = str(rng.choice(["Svanberg2007", "Svanberg2007", "Svanberg1987"]))
     kw = dict(asyinit=float(rng.choice([0.5, 0.2])), asyincr=float(rng.choice([1.2, 1.1])), asydecr=float(rng.choice([0.7, 0.5])),
               albefa=float(rng.choice([0.1, 0.2])))
+    relaxed = False
+    if rng.random() < 0.12 and P["cls"] != "F":
+        # Svanberg's general form with a_i > 0: the constraints may be relaxed through z at the price a0*z - the optimum of *that*
+        # problem is not the reference optimum, so only the per-iteration clauses are judged for these runs
+        kw.update(a=rng.uniform(0.1, 1.0, len(P["funs"]) - 1), a0=1.0)
+        relaxed = True
+        ctx.count("runs_with_nonzero_a")
+    ccoef = None
+    if rng.random() < 0.3:
+        ccoef = float(rng.choice([1e4, 1e5, 3e3]))
+        kw["cCoef"] = ccoef
     maxit = int(rng.choice([15, 40, 60]))
     tolx = float(rng.choice([1e-7, 1e-4]))       # 1e-4 is the default stopping tolerance on the relative (range-normalised) step
     log, states = [], []
@@ -360,6 +384,11 @@ def run_case(case, ctx):
         ok = np.all(L["low"] < L["alfa"]) and np.all(L["alfa"] <= xv + 1e-14 * (1 + abs(xv))) and \
             np.all(xv <= L["beta"] + 1e-14 * (1 + abs(xv))) and np.all(L["beta"] < L["upp"])
         require(bool(ok), "asymptotes-do-not-strictly-enclose-admissible-interval", iteration=itn, **desc)
+        if ccoef is not None:
+            require(bool(np.all(np.asarray(L["c"], dtype=float) == ccoef)), "subproblem-built-with-a-different-penalty-than-requested",
+                    requested=ccoef, got=np.asarray(L["c"], dtype=float), iteration=itn, **desc)
+        if relaxed:
+            require(bool(np.allclose(L["a"], kw["a"])) and float(L["a0"]) == 1.0, "subproblem-built-with-different-a-than-requested", iteration=itn, **desc)
         require(np.all(L["alfa"] >= lo - tolb) and np.all(L["beta"] <= hi + tolb), "subproblem-bounds-outside-variable-bounds", iteration=itn, **desc)
         require(np.all(xv - L["alfa"] <= movev * rngx * (1 + 1e-10) + 1e-13) and np.all(L["beta"] - xv <= movev * rngx * (1 + 1e-10) + 1e-13),
                 "subproblem-bounds-exceed-move-limit", iteration=itn, **desc)
@@ -409,10 +438,14 @@ def run_case(case, ctx):
     d0 = float(np.max(np.abs(X[0] - xopt) / rngx))
     dist = float(np.max(np.abs(final - xopt) / rngx))
     converged_early = len(log) < maxit
-    if len(log) >= 12 or converged_early:
+    if relaxed:
+        pass
+    elif len(log) >= 12 or converged_early:
         if gfin > 1e-5:
             raise Violation("constraints-not-satisfied-at-the-end", gmax=gfin, **desc)
-        if len(log) >= 30 or converged_early:
+        if P["cls"] == "F":
+            ctx.count("feasibility_runs_judged")
+        elif len(log) >= 30 or converged_early:
             limit = 2e-3 if P["cls"] == "A" else 3e-2
             if P["kind"] == "scale-mix":
                 # coupled quadratic part: a first-order method may be slow, so a run cut off by maxit only has to have made progress;
